@@ -192,6 +192,7 @@ func (t *Term) addMon(c *big.Int, preds []*PAtom, atom *IAtom) {
 	if c.Sign() == 0 {
 		return
 	}
+	tick()
 	k := monKey(preds, atom)
 	if m, ok := t.mons[k]; ok {
 		m.c = new(big.Int).Add(m.c, c)
@@ -213,6 +214,8 @@ func (t *Term) clone() *Term {
 
 // Add returns t+u.
 func (t *Term) Add(u *Term) *Term {
+	Work += int64(len(u.mons))
+	tick()
 	n := t.clone()
 	for _, m := range u.mons {
 		n.addMon(m.c, m.preds, m.atom)
@@ -263,6 +266,10 @@ func mergePreds(a, b []*PAtom) []*PAtom {
 // Mul returns t*u, or nil if a product of two integer atoms would be needed.
 func (t *Term) Mul(u *Term) *Term {
 	n := newTerm()
+	Work += int64(len(t.mons)) * int64(len(u.mons))
+	if Work > WorkLimit {
+		panic(&abort{"analysis budget exceeded: the term computation grows beyond what the domain can follow"})
+	}
 	for _, m := range t.mons {
 		for _, k := range u.mons {
 			if m.atom != nil && k.atom != nil {
